@@ -180,7 +180,7 @@ def sketch_space(tier):
     # cache-level clause: only get is recorded, once
     for kind in ("U", "S"):
         for cap, h in itertools.product([2, 3], ["spread", "collide"]):
-            kw = dict(kind=kind, cap=cap, alpha="basic", hash=h, keys=3, D=6 if thorough else 4, A=0, Q=2)
+            kw = dict(kind=kind, cap=cap, alpha="basic", hash=h, keys=3, D=7 if thorough else 6, A=0, Q=2)
             if kind == "S":
                 for rg in regimes():
                     k2 = dict(kw, **rg)
